@@ -23,6 +23,7 @@ PROVED = [
     "assert_output_contains", "assert_not_output_contains", "assert_output_regex", "assert_not_output_regex",
 ]
 THEOREMS = (["Pedal.Assertions.c07_" + n for n in PROVED] + [
+    "Pedal.Assertions.c07_table_correct",
     "Pedal.Assertions.c07_silent_iff_holds",
     "Pedal.Assertions.c07_wrapping_invariant",
     "Pedal.Assertions.c07_negation_exclusive",
